@@ -102,3 +102,19 @@ PROPS["C01"] = dict(
         dict(test="TestC01Sockets", quick=dict(checks=160, shards=8, timeout=300), thorough=dict(checks=16000, shards=16, timeout=3000)),
     ],
 )
+
+PROPS["C04"] = dict(
+    pkg="c04", level="exploration",
+    technique="property-based testing (rapid): generated procedure programs laid out as the code generator lays them out, executed by the real Run loop and compared step by step with a reference PlusCal stack machine",
+    level_text="Generated programs (1-4 procedures, value and ref parameters, locals with and without initialiser, self/mutual recursion bounded by a fuel "
+               "counter, tail calls, calls in last position, attempts aborted after the body performed Call/Return/TailCall) are materialised as "
+               "MPCalProc/MPCalArchetype tables and run by the real runtime; after every commit or abort pc, the whole stack value and every "
+               "procedure variable and archetype variable are compared with the reference machine, and every value read is checked.",
+    level_note="Trusts the harness's PlusCal stack machine (frame = saved parameters+locals+return label; ref = name of the target slot). A reference to a "
+               "procedure's own slot is only passed when the callee cannot re-enter that procedure (PlusCal has one slot per procedure variable).",
+    rule="rapid-generated procedure programs; non-trivial = maximum call depth >=2 with an executed recursive or tail call and a variable read after a "
+         "return; distinct by rendered program.",
+    runs=[
+        dict(test="TestC04Procedures", quick=dict(checks=24000, shards=8, timeout=300), thorough=dict(checks=2000000, shards=16, timeout=3000)),
+    ],
+)
